@@ -33,7 +33,7 @@ def signature(f):
     if d.get("kind") == "trace-rejected":
         ev = d.get("event") or {}
         det = ev.get("detail") or {}
-        what = "slow" if ev.get("elapsed_ms", 0) > 20000 else "verdict"
+        what = "slow" if ev.get("cpu_ms", 0) > 20000 else "verdict"
         return "totality %s %s %s %s" % (ev.get("mode"), ev.get("fam"), what, ("%s n=%s" % (det.get("f"), det.get("n"))) if det.get("f") else "")
     if c.get("fam") == "scale":
         return "totality %s scale %s n=%s" % (d.get("kind"), c.get("f"), c.get("n"))
